@@ -68,8 +68,9 @@ META = {
          "edge dominance + must-depend provenance"),
 }
 
-claimed = sorted(re.match(r".*rules_(c\d+)\.go", p).group(1).upper()
-                 for p in glob.glob(os.path.join(HERE, "engine", "rules_c*.go")))
+import subprocess
+tracked = subprocess.run(["git", "-C", HERE, "ls-files", "engine"], capture_output=True, text=True).stdout.split()
+claimed = sorted(re.match(r".*rules_(c\d+)\.go", p).group(1).upper() for p in tracked if re.match(r".*rules_c\d+\.go$", p))
 disabled = set()
 dpath = os.path.join(HERE, "tools", "unclaimed.json")
 reasons = {}
